@@ -118,6 +118,20 @@ def run(ctx: C.Ctx):
             B, mk = gen.gen_matrix(rng, kind=rng.choice(["ties", "dup_rows", "ties"]), max_n=ctx.scale(9, 20), max_m=ctx.scale(7, 14))
             n = B.shape[0]
             costs, ck = gen.gen_costs(rng, n, B, kind="offset_small_spread")
+        if idx % 10 == 3:
+            # nearly low rank (almost co-located sensors): a rank-r integer core plus generic entries 2^-e times smaller.  After r
+            # picks the residual norms drop by 2^e and – with equal prices inside the cheap group – they alone decide; they must
+            # be the norms of the trailing block, not the debris of subtracting large squared norms from each other
+            n_, m_ = rng.randint(5, ctx.scale(9, 16)), rng.randint(4, ctx.scale(7, 12))
+            r_ = rng.randint(1, min(n_, m_) - 2)
+            B = gen.gen_generic_matrix(rng, n_, r_, -4, 4) @ gen.gen_generic_matrix(rng, r_, m_, -4, 4) \
+                + gen.gen_generic_matrix(rng, n_, m_) * 2.0 ** -rng.choice([24, 30, 36, 44])
+            n, mk = n_, "nearly_low_rank"
+            ck = rng.choice(["zero", "none", "prohibitive", "constant"])
+            if ck == "constant":
+                costs = np.full(n, float(rng.choice([-3, 2, 7.5])))
+            else:
+                costs, ck = gen.gen_costs(rng, n, B, kind=ck)
         case = OptCase(B, "ccqr", costs=costs, meta={"mk": mk, "ck": ck})
         if idx % 6 == 1 and float(np.max(np.abs(B), initial=0)) < 2 ** 20 and np.array_equal(B.astype(np.float32).astype(float), B):
             # a single-precision basis matrix with costs far larger than the norms: `norm − cost` is still a float64 quantity
